@@ -127,6 +127,7 @@ func Resume(
 		// the file so that the Readonly.backing has the right set of bytes to deal with.
 		// This effectively means resuming from a finalized file will wipe its index even if there
 		// are no blocks put unless the user calls finalize.
+		internalio.VerifWrite("t", int64(headerInFile.DataOffset+headerInFile.DataSize), nil)
 		if err := rw.(interface{ Truncate(size int64) error }).Truncate(int64(headerInFile.DataOffset + headerInFile.DataSize)); err != nil {
 			return err
 		}
